@@ -273,3 +273,23 @@ _ADDENDA4 = {
 }
 for _k, _v in _ADDENDA4.items():
     CLAIMS[_k]["text"] = CLAIMS[_k]["text"].rstrip() + _v
+
+# rules added in round 5 of the seeded changes
+_ADDENDA5 = {
+    "C01": " (T3', all elements) the POVM positivity verdict looks at every element (no early exit with True, no sub-range).",
+    "C03": " (I5, gate) Gate's variable conversion removes / re-inserts exactly the d^2 entries of the first row.",
+    "C04": " (S6) the equality projections write the constants their parametrisation implies over the whole constrained part (rule I5 of C03 re-run on calc_proj_eq_constraint*).",
+    "C05": " (K5) the projection factories hand out the closure of the algorithm they are named after; (K6) as S6 of C04.",
+    "C07": " (P2, counts) composite POVM outcome counts are derived from the sorted system order, as the tensor product is.",
+    "C08": " (M5, dimension) the coefficient builder is handed the dimension of the object whose coefficients it fills.",
+    "C09": " (L8) the A and b the estimator inverts hold the circuit's coefficients (rules M4 / M5 of C08 re-run).",
+    "C10": " (P8) as S6 of C04; (P9) as K5 of C05.",
+    "C11": " (A9) a loop accumulating loss terms over outcomes / schedules visits every term (no break).",
+    "C12": " (W8, items) nor does code after a loop read the loop's item variable as if it were a per-item value.",
+    "C13": " (N8) property getters do not write to the object they are read from, except a guarded lazy cache of their own field.",
+    "C15": " (H10) the simulation settings hand the stream they receive to every callee that draws (rule G5 of C14 re-run on quara.simulation).",
+    "C16": " (X2, fallback) where the symbolic comparison of two index expressions is inconclusive, the same abstract interpreter is instantiated with constant radices (a handful of small shapes) and a disagreement with the row-major digits is reported as a counterexample; agreement on those shapes proves nothing and leaves the obligation undecided.",
+    "C18": " (Q7) EffectiveLindbladian.is_tp compares the whole first row of the HS matrix with zero.",
+}
+for _k, _v in _ADDENDA5.items():
+    CLAIMS[_k]["text"] = CLAIMS[_k]["text"].rstrip() + _v
